@@ -55,6 +55,14 @@ def combos(ctx, rnd):
               (('*',), (), ('.*',), (), R | H), (('*',), (), (), (), R), (('*',), (), (), (), R | SY | H), ((), (), (), (), R | H), (('x',), (), ('**/d/',), (), R | DP | GS | H),
               (('**/x',), (), (), (), R | FP | GS), (('x',), (), (), (), R | FP | MB), (('*',), (), ('d',), (), R | DP | MB), (('*',), (), ('q',), (), R | DP | MB | H),
               (('*',), (), ('d',), (), R | DP | MB | FP), (('f',), (), (), (), R | MB), (('*',), (), ('/d',), (), R | DP | MB), (('*',), (), ('a',), (), 0), ((), ('**/x',), (), (), R | FP | GS | M)]
+    # a leading separator anchors a piece to the walk root, with and without MATCHBASE, in inclusions, exclusions and folder patterns
+    for mb in (0, MB):
+        cases += [(('/a/x',), (), (), (), R | FP | mb), (('/a/*', '/f'), (), (), (), R | FP | H | mb), (('*',), ('/a/x',), (), (), R | FP | mb),
+                  (('**/x',), ('/a/**',), (), (), R | FP | GS | mb), (('/x',), (), (), (), R | FP | mb), (('*',), (), ('/d',), (), R | DP | mb), (('*',), (), ('/a', '/d/d'), (), R | DP | mb),
+                  (('*',), (), ('*',), ('/a',), R | DP | mb), (('*',), (), ('/a/',), (), R | DP | mb), (('x',), (), ('/**/d',), (), R | DP | GS | mb)]
+    # folder patterns written as directories (trailing separator) under DIRPATHNAME
+    cases += [(('*',), (), ('a/',), (), R | DP), (('*',), (), ('*/',), (), R | DP | H), (('*',), (), ('**/d/',), (), R | DP | GS), (('*',), (), ('d/*/',), ('d/d/',), R | DP),
+              (('*',), (), ('a/',), (), R | DP | FP), (('*',), (), ('d/',), (), R)]
     for k, c in enumerate(cases):
         ts = names if not ctx.quick else [names[(k + j) % len(names)] for j in range(3)]
         for t in ts:
